@@ -200,7 +200,8 @@ Definition q_push (it : item) (q : queue) : queue * err :=
           | (q', e) => (q', e)
           end
         else (q, EFull)
-    | _ => (q, EPanic)        (* tail.Hash() on a nil Scorer *)
+    | LNil => (q, EFull)      (* tail == nil: maxsize <= 0, nothing to replace *)
+    | LPanic => (q, EPanic)   (* Last() itself dereferenced nil *)
     end
   else (q_insert (ihash it) it q, ENone).
 
